@@ -36,7 +36,8 @@ RULE = ("history = views (3 DataStore connections incl. optionally a non-strict 
         "dumped through an independent raw connection and (result, dump) is compared with the Lean model and judged by the "
         "Lean checker checkStep (result clause, effect clause). fn = one pure function (json.dumps + strict check, unquote, "
         "body decoding). nonfinite = NaN/±Infinity stream (outside the model: no crash, read back equal). crash = writer "
-        "process SIGKILLed after k acknowledgements / mid-operation, file read by a fresh process, judged by crashOK "
+        "process SIGKILLed after k acknowledgements / mid-operation / at the entry of its k-th pwrite64, fdatasync, unlink or "
+        "ftruncate system call (under strace: deterministic kill points inside SQLite's commit), file read by a fresh process, judged by crashOK "
         "(DIFFERENTIAL evidence only). non-trivial: a history with >= 1 effective write and >= 1 read, an fn/crash case "
         "always; distinct by SHA-1 of the case")
 BUDGET_S = {"quick": 55, "thorough": 1500}
@@ -58,11 +59,15 @@ def gen(rng, tier, mult=1):
         yield S.gen_fn(rng, i)
     for i in range(n_crash if quick else 0):
         yield S.gen_crash(rng, heavy=True)
+    for i in range(24 if quick else 0):
+        yield S.gen_crash_syscall(rng, heavy=True)
     if not quick:
         # small-scope enumeration: every history of length <= 3 over a tiny alphabet of steps
         yield from small_scope()
         for i in range(n_crash):
             yield S.gen_crash(rng, heavy=(i % 4 != 0))
+        for i in range(3 * n_crash):
+            yield S.gen_crash_syscall(rng, heavy=(i % 4 != 0))
 
 
 def small_scope():
@@ -188,6 +193,11 @@ def judge_fn(case, obs, m):
 
 
 def judge_crash(case, obs, m):
+    if obs.get("unreadable") and obs.get("acked", 0) > 0:
+        # completed writes did not survive the kill: a fresh process cannot read the file at all
+        return Judgement(case, False, True, {"acked": obs["acked"], "reader": obs["unreadable"], "kill": case["kill"]},
+                         kind="crash/%s/UNREADABLE" % case["kill"]["mode"], nontrivial=True,
+                         failed_clause="crash-database-unreadable")
     ok = bool(m["ok"])
     n = len(case["steps"])
     kind = "crash/%s/%s" % (case["kill"]["mode"],
